@@ -434,3 +434,281 @@ def run_c15(rep, tier):
     rep.cov['states'] = max(done, 1)
     rep.cov['transitions'] = max(done, 1)
     rep.cov['states_meaning'] = '(logic, formula, n, |F|) combinations decided unsat; each covers every total structure and every F of its bound (outside the listed classes)'
+
+
+# ------------------------------------------------------------------ generic aspect absorption with presentation-aware replays
+def ref_text(rec, opts):
+    """formula in CTL* syntax over the atoms p,q for the explicit reference (atoms renamed back)"""
+    t = rec['formula']
+    for a, nm_ in (opts.get('label_pool') or {}).items():
+        pass
+    return opts.get('ref_formula') or t
+
+
+def absorb_aspects(rep, pid, t, recs, aspects, describe):
+    logic, n, _, opts = t
+    opts = opts or {}
+    if opts.get('only_shape'):
+        aspects = tuple(a for a in aspects if a in ('noexc', 'isset', 'unwind', 'pure'))      # exactness under fairness belongs to C15
+    for rec in recs:
+        key = '%s n=%d %s%s%s%s%s' % (rec['logic'], rec['n'], rec['formula'], (' order=%s' % rec['perm']) if rec.get('perm') else '',
+                                      (' states=%s' % (opts.get('states'),)) if opts.get('states') else '', (' tie-seed=%s' % opts['tie']) if opts.get('tie') is not None else '',
+                                      (' atoms=%s' % (opts.get('label_pool'),)) if opts.get('label_pool') else '')
+        if rec.get('verdict') == 'unsupported':
+            rep.inconclusive('%s: %s' % (key, rec['error']))
+            rep.obligation(key, 'unsupported')
+            continue
+        rep.encoded_add(rec.get('encoded', ()))
+        verdicts = {a: rec.get(a) for a in aspects if rec.get(a) is not None}
+        worst = 'unsat'
+        for a, v in verdicts.items():
+            if v != 'unsat':
+                worst = 'sat' if v == 'sat' else (worst if worst == 'sat' else v)
+        rep.obligation(key, worst, rec.get('solver_s', 0), rec.get('queries', 0),
+                       dict(obligation=describe, formula=rec['formula'], n=rec['n'], verdicts=verdicts, order=rec.get('perm'), states=repr(opts.get('states')),
+                            encode_s=rec.get('encode_s'), solver_s=rec.get('solver_s'), gates=rec.get('gates'), audit=rec.get('audit'), oracle=rec.get('oracle')),
+                       nontrivial=rec.get('nontrivial', True))
+        if rec.get('skipped'):
+            continue
+        if rec.get('care_sat') != 'sat':
+            rep.inconclusive('%s: assumptions unsatisfiable (vacuous run)' % key)
+        fm = opts.get('ref_formula') or rec['formula']
+        for a, v in verdicts.items():
+            if v == 'unsat':
+                continue
+            if v != 'sat':
+                rep.inconclusive('%s: aspect %s is %s' % (key, a, v))
+                continue
+            model = rec.get({'verdict': 'model', 'noexc': 'exc_model', 'pure': 'pure_model'}.get(a, a + '_model'))
+            if a in ('verdict', 'noexc', 'isset', 'recall', 'recall_same'):
+                body = ("got = run(%r, %r, K)\nwant = explicit.sat_states(explicit.Struct(n, R, L), CTLS.Parser()(%r))\n"
+                        "print('modelcheck ->', got, '; reference ->', want)\nbad = [] if (isinstance(got, set) and norm(got) == want) else ['result %%r, reference %%r' %% (got, want)]\n"
+                        "r2 = run(%r, %r, K)\nif isinstance(got, set):\n    got.clear(); got.add('junk')\n    r3 = run(%r, %r, K)\n    if r3 != r2: bad.append('result changed after mutating the first result: %%r -> %%r' %% (r2, r3))\n"
+                        % (rec['logic'], rec['formula'], fm, rec['logic'], rec['formula'], rec['logic'], rec['formula']))
+            elif a == 'pure':
+                body = ("got = run(%r, %r, K)\nafter = str(sorted(map(repr, K.transitions()))) + str({repr(s): sorted(map(repr, K.labels(s))) for s in K.states()}) + repr(sorted(map(repr, K.S0)))\n"
+                        "bad = [] if after == before else ['structure changed: %%s -> %%s' %% (before, after)]\n" % (rec['logic'], rec['formula']))
+            elif a.startswith('agree_'):
+                o = a[len('agree_'):]
+                of = (opts.get('also_text') or {}).get(o, rec['formula'])
+                body = ("a = run(%r, %r, K); b = run(%r, %r, K)\nprint(%r, a, %r, b)\nbad = [] if a == b else ['%s and %s disagree: %%r vs %%r' %% (a, b)]\n"
+                        % (rec['logic'], rec['formula'], o, of, rec['logic'], o, rec['logic'], o))
+            elif a == 'textobj':
+                body = ("a = run(%r, %r, K); b = run(%r, mods[%r].Parser()(%r), K)\nbad = [] if a == b else ['text and object input disagree: %%r vs %%r' %% (a, b)]\n"
+                        % (rec['logic'], rec['formula'], rec['logic'], rec['logic'], rec['formula']))
+            elif a == 'determ':
+                body = ("a = run(%r, %r, K)\nK2 = Kripke(S=list(K.states()), R=list(K.transitions()), L={s: ({'p', 'q'} - set(K.labels(s))) for s in K.states()})\n"
+                        "run(%r, %r, K2)\nb = run(%r, %r, K)\nbad = [] if a == b else ['same call returned %%r, then (after a call on another structure) %%r' %% (a, b)]\n"
+                        % (rec['logic'], rec['formula'], rec['logic'], rec['formula'], rec['logic'], rec['formula']))
+            else:
+                rep.inconclusive('%s: aspect %s sat (no replay template)' % (key, a))
+                continue
+            path, out = mc.gen_replay(pid, rec, model, body, opts)
+            if path:
+                rep.violation('%s [%s]: %s' % (key, a, out.strip().splitlines()[-3:-1]), path)
+            else:
+                rep.inconclusive('%s [%s]: counterexample does not reproduce natively: %s' % (key, a, out[-300:]))
+        if ('pure' in aspects) and (rec.get('shared') or rec.get('formula_changed')):
+            rep.inconclusive('%s: result object shared with K=%s, formula changed=%s' % (key, rec.get('shared'), rec.get('formula_changed')))
+        au = rec.get('audit')
+        if au:
+            rep.cov['audit_rewrites_total'] = rep.cov.get('audit_rewrites_total', 0) + au['total']
+            rep.cov['audit_rewrites_reproved'] = rep.cov.get('audit_rewrites_reproved', 0) + au['checked']
+            if au['failed']:
+                rep.inconclusive('%s: simplifier lemma batch not re-proved' % key)
+
+
+def run_tasks(rep, pid, tasks, aspects, describe, mem_heavy=False):
+    done = 0
+    for t, st, recs, secs in pmap(mc.mc_task, tasks, mem_heavy=mem_heavy):
+        if st != 'ok':
+            rep.inconclusive('task %s n=%s %s: %s' % (t[0], t[1], t[2][:2], recs))
+            continue
+        absorb_aspects(rep, pid, t, recs, aspects, describe)
+        done += sum(1 for r in recs if all(r.get(a) in (None, 'unsat') for a in aspects) and r.get('verdict') != 'unsupported')
+    return done
+
+
+# ------------------------------------------------------------------ C04
+def run_c04(rep, tier):
+    rep.assumptions += ['total structures n<=3 (CTL, CTLS laws) / n<=2 (anything involving the LTL tableau); formula pairs from the stated sets', 'no reference semantics is used: implementation vs implementation']
+    rep.cov['trusted_base'] = TRUSTED
+    rep.cov['explanation'] = ('two or three implementation runs share one symbolic structure and the solver proves their result vectors equal: CTL vs CTLS on CTL formulas, both vs LTL on '
+                              'the common fragment, text vs object input, and the semantic laws (complement, and/or/implies, A g = not E not g, fixpoint expansions) as identities between vectors')
+    shared3 = ['A X p', 'A G p', 'A F p', 'A(p U q)', 'A(p R q)', 'A G (p or q)', 'A F (p and q)', 'A X (not p)', 'A((not p) U q)', 'A G (p --> q)']
+    ltl3 = ['A X p', 'A G p', 'A F p', 'A (p U q)', 'A (p R q)', 'A G (p or q)', 'A F (p and q)', 'A X (not p)', 'A ((not p) U q)', 'A G (p --> q)']
+    tasks = []
+    for c, l in zip(shared3, ltl3):
+        tasks.append(('LTL', 2, [l], dict(also=['CTL', 'CTLS'], also_text={'CTL': c, 'CTLS': c}, as_text=True)))
+    ctlf = formulas.ctl_phi1()[4::2] + formulas.ctl_pairs()[::5]
+    if tier == 'thorough':
+        ctlf = formulas.ctl_phi1()[4:] + formulas.ctl_pairs()[::2] + formulas.ctl_phi2_quick()[::5]
+    tasks += [('CTL', 3, ch, dict(also=['CTLS'], as_text=True)) for ch in chunks(ctlf, 6)]
+    done = run_tasks(rep, 'C04', tasks, ('agree_CTL', 'agree_CTLS', 'textobj', 'noexc', 'unwind'), 'the checkers return the same set on shared formulas; text and object input agree')
+    fs = ['p', 'q', 'not p', 'E X p', 'A F q', 'E G p', 'A(p U q)', 'E(q R p)', '(p and q)', 'A G (p or q)']
+    gs = ['q', 'p', 'E F p', 'A X q', 'not q', 'E(p U q)']
+    pairs = [(f, g) for f in fs for g in gs if f != g]
+    if tier == 'quick':
+        pairs = pairs[::3]
+    ltl_pairs = [('p', 'q'), ('X p', 'q'), ('p', 'X q'), ('(p U q)', 'p'), ('G p', 'q'), ('p', 'F q')]
+    if tier == 'thorough':
+        ltl_pairs += [('F p', 'G q'), ('G p', 'F q')]          # e=4 after expansion: ~5 min each
+    ltasks = [('CTL', 3, ch) for ch in chunks(pairs, 2)] + [('CTLS', 2, ch) for ch in chunks(pairs[::3], 2)] + [('LTL', 2, [pr]) for pr in ltl_pairs]
+    nlaws = 0
+    for t, st, recs, secs in pmap(mc.law_task, ltasks):
+        if st != 'ok':
+            rep.inconclusive('law task %s: %s' % (t[:2], recs))
+            continue
+        for rec in recs:
+            key0 = '%s n=%d laws f=%s g=%s' % (rec['logic'], rec['n'], rec['pair'][0], rec['pair'][1])
+            if rec.get('error'):
+                rep.inconclusive('%s: %s' % (key0, rec['error']))
+                rep.obligation(key0, 'unsupported')
+                continue
+            rep.encoded_add(rec['encoded'])
+            if rec['noexc'] != 'unsat':
+                rep.inconclusive('%s: exception/unwinding guard %s (%s)' % (key0, rec['noexc'], rec['exc']))
+            for law, v in rec['laws'].items():
+                key = '%s: %s' % (key0, law)
+                rep.obligation(key, v, rec['solver_s'] / max(1, len(rec['laws'])), 1,
+                               dict(obligation='semantic law as identity between implementation result vectors', law=law, f=rec['pair'][0], g=rec['pair'][1], logic=rec['logic'], n=rec['n'], verdict=v))
+                if v == 'unsat':
+                    nlaws += 1
+                elif v == 'sat':
+                    path, out = mc.law_replay(rec, law)
+                    if path:
+                        rep.violation('%s: %s' % (key, out.strip().splitlines()[-3:-1]), path)
+                    else:
+                        rep.inconclusive('%s: counterexample does not reproduce natively' % key)
+                else:
+                    rep.inconclusive('%s: %s' % (key, v))
+    rep.cov['bounds'].update(n='3 for CTL/CTLS, 2 where the LTL tableau runs', agreement_formulas=len(ctlf) + len(ltl3), law_pairs=len(pairs) + len(ltl_pairs))
+    rep.cov['programs'] = len(ctlf) + len(ltl3) + len(pairs) + len(ltl_pairs)
+    rep.cov['states'] = done + nlaws
+    rep.cov['transitions'] = done + nlaws
+    rep.cov['states_meaning'] = 'agreement obligations and law instances decided unsat; each covers every total structure of its bound'
+
+
+# ------------------------------------------------------------------ C06
+def run_c06(rep, tier):
+    rep.assumptions += ['iteration order of sets of states is one global order of the universe (all n! orders forked at n=3); iteration order of sets of formulas is a seeded global order of printed forms (models the hash seed; a sample of seeds)',
+                        'PYTHONHASHSEED as a process setting is exercised only when counterexamples are replayed; the solver decides the order model, not fresh interpreters']
+    rep.cov['trusted_base'] = TRUSTED
+    rep.cov['explanation'] = ('the exactness obligations of C01-C03 re-decided with the presentation varied: every order of presenting/iterating the states (S, R, L built in that order, '
+                              'set iteration follows it), states renamed to strings/tuples/mixed types, atoms renamed, tie orders of the closure sort forked by seed, and an unreachable extra state added; '
+                              'the oracle does not depend on any of these, so unsat for all of them is invariance')
+    perms3 = [list(p) for p in itertools.permutations(range(3))]
+    ctlf = formulas.CTL_SINGLE[3:] + formulas.ctl_pairs()[::9]
+    ltlf = ['A G p', 'A (p U q)', 'A F G p', 'A (X p or F q)', 'A ((p U q) R p)', 'A (G F p --> F q)'] if tier == 'quick' else ['A %s' % formulas.par(g) for g in formulas.ltl_paths(2)[2][::6]]
+    ctlsf = ['E F X q', 'A (F G q --> E G p)', 'E (p U (A X q and X p))', 'E G F p', 'A (X p or X not p)', 'E X A X p']
+    tasks = []
+    for pm in perms3[1:]:
+        tasks += [('CTL', 3, ch, dict(perm=pm, audit=False)) for ch in chunks(ctlf, 10)]
+    for pm in [[1, 0]]:
+        tasks += [('LTL', 2, ch, dict(perm=pm, audit=False)) for ch in chunks(ltlf, 3)]
+        tasks += [('CTLS', 2, ch, dict(perm=pm, audit=False)) for ch in chunks(ctlsf, 2)]
+    # renamed states (strings, tuples, mixed) with a non-identity order
+    for sts in (['b', 'a', 'c'], [(1, 0), (0, 1), (0, 0)], [0, '0', (0,)]):
+        tasks += [('CTL', 3, ch, dict(states=sts, perm=[2, 0, 1], audit=False)) for ch in chunks(ctlf[:16], 8)]
+        tasks += [('CTLS', 2, ctlsf[:3], dict(states=sts[:2], perm=[1, 0], audit=False))]
+        tasks += [('LTL', 2, ltlf[:3], dict(states=sts[:2], audit=False))]
+    # renamed atoms (printed forms drive sorted()/ties and the fresh names)
+    for pool, (a, b) in (({'p': 'b', 'q': 'a'}, ('b', 'a')), ({'p': 'q1', 'q': 'p_'}, ('q1', 'p_'))):
+        ren = lambda s: ''.join({'p': a, 'q': b}.get(tok, tok) for tok in __import__('re').split(r'(\W+)', s))
+        tasks += [('LTL', 2, [ren(x)], dict(label_pool=pool, ref_formula=x, audit=False, rename=(a, b))) for x in ltlf[:4]]
+        tasks += [('CTLS', 2, [ren(x)], dict(label_pool=pool, ref_formula=x, audit=False, rename=(a, b))) for x in ctlsf[:3]]
+        tasks += [('CTL', 3, [ren(x)], dict(label_pool=pool, ref_formula=x, audit=False, rename=(a, b))) for x in ctlf[:6]]
+    # tie orders inside the closure (hash-seed dependent order of formula sets)
+    seeds = range(1, 5) if tier == 'quick' else range(1, 25)
+    for sd in seeds:
+        tasks += [('LTL', 2, ch, dict(tie=sd, audit=False)) for ch in chunks(ltlf, 3)]
+        tasks += [('CTLS', 2, ctlsf[:3], dict(tie=sd, audit=False))]
+    # an extra state unreachable from the queried ones
+    unre = dict(sub_n=2, fixed={'t_0_2': False, 't_1_2': False}, audit=False)
+    tasks += [('CTL', 3, ch, dict(unre)) for ch in chunks(ctlf[:20], 10)]
+    tasks += [('CTLS', 3, [x], dict(unre)) for x in ctlsf[:2]] + [('LTL', 3, [x], dict(unre)) for x in ltlf[:2]]
+    if tier == 'thorough':
+        for pm in [list(p) for p in itertools.permutations(range(4))][1::3]:
+            for fx in list(label_forks(4))[::37]:
+                tasks.append(('CTL', 4, formulas.CTL_SINGLE[7:], dict(perm=pm, fixed=fx, audit=False)))
+    done = run_tasks(rep, 'C06', tasks, ('verdict', 'noexc', 'unwind', 'stable'), 'modelcheck == reference semantics under this presentation (order / naming / tie order / unreachable extra state)',
+                     mem_heavy=True)
+    rep.cov['bounds'].update(orders='all 6 at n=3 for CTL; swap at n=2 for LTL/CTL*' + ('; 8 of 24 at n=4' if tier == 'thorough' else ''), tie_seeds=len(list(seeds)),
+                             state_types='ints, strings, tuples, mixed int/str/tuple', atom_renamings=2)
+    rep.cov['programs'] = len(ctlf) + len(ltlf) + len(ctlsf)
+    rep.cov['states'] = done
+    rep.cov['transitions'] = done
+    rep.cov['states_meaning'] = '(logic, formula, presentation) combinations decided unsat'
+
+
+# ------------------------------------------------------------------ C07
+def run_c07(rep, tier):
+    rep.assumptions += ['heap model of the evaluator: the caller\'s structure is snapshotted bit by bit before the call and compared afterwards (every label set incl. atoms that did not exist before, every successor set, S0, object identities)',
+                        'writes to module globals / class attributes of the interpreted modules make the run inconclusive (none occur today), which is why call sequences longer than call-other-call are not explored']
+    rep.cov['trusted_base'] = TRUSTED
+    rep.cov['explanation'] = ('on the symbolic runs of all three checkers (with and without fairness, text and object formulas): the solver proves no bit of the caller\'s structure differs from its snapshot; '
+                              'no label/successor set is shared with the result; the formula prints as before; the same call repeated after an interleaved call of the same formula on another structure returns an equal vector')
+    ctlf = formulas.CTL_SINGLE + formulas.ctl_pairs()[::6]
+    ltlf = ['A G p', 'A (p U q)', 'A F G p', 'A (X p or F q)', 'A ((p U q) R p)']
+    ctlsf = ['E F X q', 'A (F G q --> E G p)', 'E (p U (A X q and X p))', 'E G F p', 'E X A X p', '(p and A X E X q)', 'A F E G p']
+    o = dict(interleave=True, recall=True, as_text=True)
+    tasks = [('CTL', 3, ch, dict(o)) for ch in chunks(ctlf, 6)]
+    tasks += [('LTL', 2, [x], dict(o)) for x in ltlf] + [('CTLS', 2, [x], dict(o)) for x in ctlsf]
+    tasks += [('CTL', 2, ch, dict(o, fair=1, ctls_oracle=True, outside_d7=False)) for ch in chunks(ctlf[3:], 8)]
+    tasks += [('CTLS', 2, ch, dict(o, fair=1, ctls_oracle=True, outside_d7=False)) for ch in chunks(ctlsf + ctlf[7:13], 3)]
+    done = run_tasks(rep, 'C07', tasks, ('pure', 'determ', 'recall_same', 'textobj', 'unwind'), 'the call leaves K and the formula unchanged; repeating it (also after a call on another structure) gives an equal set',
+                     mem_heavy=True)
+    rep.cov['bounds'].update(n='3 (CTL) / 2 (LTL, CTL*, fairness)', formulas=len(ctlf) + len(ltlf) + len(ctlsf), histories='call; call(other structure, same formula); call  and  call; mutate result; call')
+    rep.cov['programs'] = len(ctlf) + len(ltlf) + len(ctlsf)
+    rep.cov['states'] = done
+    rep.cov['transitions'] = done
+    rep.cov['states_meaning'] = '(logic, formula, fairness) combinations decided unsat; each covers every total structure of its bound'
+
+
+# ------------------------------------------------------------------ C19
+def deep_native(rep, depth=60):
+    """RecursionError clause: nesting depth 60 natively (a CPython resource, not modelled symbolically)"""
+    from pyModelChecking import Kripke, CTL, LTL, CTLS
+    K = Kripke(S=[0, 1], R=[(0, 1), (1, 0), (1, 1)], L={0: {'p'}, 1: {'q'}})
+    bad = []
+    # (the LTL tableau is exponential in the number of temporal subformulas, so its spine is Boolean)
+    for logic, mod, wrap, leaf, pre in (('CTL', CTL, 'not E X (%s)', 'p', ''), ('CTLS', CTLS, 'not E X (%s)', 'p', ''), ('LTL', LTL, '(q and (p or %s))', 'p', 'A ')):
+        s = leaf
+        for _ in range(depth):
+            s = wrap % s
+        try:
+            r = mod.modelcheck(K, pre + '(%s)' % s)
+            if not isinstance(r, set) or not r <= {0, 1}:
+                bad.append('%s depth %d: %r' % (logic, depth, r))
+        except Exception as e:
+            bad.append('%s depth %d raised %s' % (logic, depth, type(e).__name__))
+    rep.cov['traces_validated_against_impl'] += 3
+    rep.obligation('native spine depth %d' % depth, 'unsat' if not bad else 'sat', 0, 0, dict(native_only='formula spines of depth %d through all three checkers' % depth, problems=bad))
+    for b in bad:
+        rep.inconclusive('deep formula natively: ' + b)
+
+
+def run_c19(rep, tier):
+    rep.assumptions += ['states of mixed types, labels with non-string values and operator-like / fresh-name-colliding strings are concrete presentations; transitions and p/q labels stay symbolic',
+                        'RecursionError: examined natively to nesting depth 60 only (CPython stack, not modelled)']
+    rep.cov['trusted_base'] = TRUSTED
+    rep.cov['explanation'] = ('on the symbolic runs of the three checkers over heterogeneous presentations: the result is a set, holds only states of K, is not an object reachable from K, no exception guard is satisfiable, '
+                              'and a second call after the first result was emptied/polluted still equals the reference')
+    junk = [7, ('t',), 'or', 'A', '[p]', 'fair', 'fair0', '[A(F(p))]', '[E(X(p))]', '[[A(F(p))](0)]']
+    mixed = [0, '1', (2,)]
+    ctlf = formulas.CTL_SINGLE + ['E X r', 'A G (p or r)', 'A(r U q)', 'E G not r'] + formulas.ctl_pairs()[::11]
+    ltlf = ['A G p', 'A (p U q)', 'A F G p', 'A (r U p)', 'A X r']
+    ctlsf = ['E F X q', 'E X (A F p)', 'A (F G q --> E G p)', 'A G (E X p)', 'E (r U (A X q and X p))', '(p and A X E X q)']
+    o = dict(recall=True, junk=junk)
+    tasks = [('CTL', 3, ch, dict(o, states=mixed)) for ch in chunks(ctlf, 6)]
+    tasks += [('CTL', 3, ch, dict(o, states=['s t', 'A', 'or'], perm=[1, 2, 0])) for ch in chunks(ctlf[::2], 6)]
+    tasks += [('LTL', 2, [x], dict(o, states=mixed[1:])) for x in ltlf] + [('CTLS', 2, [x], dict(o, states=mixed[:2])) for x in ctlsf]
+    tasks += [('CTLS', 2, ch, dict(o, states=[(0, 0), 'x'], fair=1, ctls_oracle=True, outside_d7=False, only_shape=True)) for ch in chunks(ctlsf[:3] + ['E X p', 'A G p'], 2)]
+    done = run_tasks(rep, 'C19', tasks, ('verdict', 'noexc', 'isset', 'recall', 'unwind', 'stable'), 'modelcheck returns a fresh set of K\'s own states (== reference) and never raises, for heterogeneous states/labels',
+                     mem_heavy=True)
+    deep_native(rep)
+    rep.cov['bounds'].update(n='3 (CTL) / 2 (LTL, CTL*)', formulas=len(ctlf) + len(ltlf) + len(ctlsf), state_presentations=[repr(mixed), "['s t','A','or']", "[(0,0),'x']"], junk_labels=repr(junk))
+    rep.cov['programs'] = len(ctlf) + len(ltlf) + len(ctlsf)
+    rep.cov['states'] = done
+    rep.cov['transitions'] = done
+    rep.cov['states_meaning'] = '(logic, formula, presentation) combinations decided unsat'
